@@ -11,10 +11,18 @@ let process (toks : string list) : string =
     let tape = if tape = "-" then [] else split_chunks tape in
     let (k0, rs) = x_mk_history (nat_of_int (int_of_string n)) (kind = "w32") (bytes_of_hex key) tape (nat_of_int (int_of_string rounds)) in
     String.concat " " (hex_of_bytes k0 :: List.map (fun (k, f) -> hex_of_bytes k ^ ":" ^ flags f) rs)
+  | ["MR"; n; kind; st; rounds; tape] ->
+    let tape = if tape = "-" then [] else split_chunks tape in
+    let b = bytes_of_hex st in
+    let rec chunks l = match l with [] -> [] | _ -> let rec take k l = if k = 0 then ([], l) else (match l with [] -> ([], []) | x :: r -> let (a, b) = take (k - 1) r in (x :: a, b)) in
+                                              let (a, r) = take 8 l in a :: chunks r in
+    let (v0, rs) = x_mws_history (nat_of_int (int_of_string n)) (kind = "w32") (chunks b) tape (nat_of_int (int_of_string rounds)) in
+    let cat vs = hex_of_bytes (List.concat vs) in
+    String.concat " " (cat v0 :: List.map (fun (v, f) -> cat v ^ ":" ^ flags f) rs)
   | ["MP"; st; prog; _tape] ->
     let steps = List.map (fun c -> if String.length c > 1 && c.[0] = 'p' then Some (nat_of_int (int_of_string (String.sub c 1 (String.length c - 1)))) else None)
         (String.split_on_char ',' prog) in
     hex_of_bytes (x_ms_run steps (bytes_of_hex st))
   | _ -> "UNSUPPORTED"
 
-let () = List.iter (fun n -> register n process) ["MK"; "MP"]
+let () = List.iter (fun n -> register n process) ["MK"; "MP"; "MR"]
